@@ -39,7 +39,7 @@ theorem C09_compiled (items : LexerDef) (c : Compiled) (h : compileLexer items =
 /-- a freshly constructed lexer is `Ready` (state 0 = entry of `Init` / of the unnamed rule set) -/
 theorem C09_initial_ready (cfg : Config σ τ ε) (user : σ) (chars : List Nat) : Ready cfg (initState user chars) := by
   refine ⟨rfl, rfl, 0, Or.inl rfl, ?_⟩
-  show (0 : Nat) = renumber (inlinedStates cfg.dfa) 0
+  show (0 : Nat) = renumber cfg.inl 0
   unfold renumber
   simp
 
